@@ -384,6 +384,22 @@ fn ensure_non_detach_delete_safety<S: GraphSnapshot>(
     Ok(())
 }
 
+/// Deletes a relationship together with its properties. Relationships are identified by
+/// (source, type, target): without this a relationship created later between the same nodes with
+/// the same type would come back with the properties of the deleted one.
+fn delete_relationship<S: GraphSnapshot>(
+    snapshot: &S,
+    txn: &mut dyn WriteableGraph,
+    edge: EdgeKey,
+) -> Result<()> {
+    if let Some(properties) = snapshot.edge_properties(edge) {
+        for key in properties.keys() {
+            txn.remove_edge_property(edge.src, edge.rel, edge.dst, key)?;
+        }
+    }
+    txn.tombstone_edge(edge.src, edge.rel, edge.dst)
+}
+
 pub(super) fn execute_delete_on_rows<S: GraphSnapshot>(
     snapshot: &S,
     rows: &[Row],
@@ -424,19 +440,19 @@ pub(super) fn execute_delete_on_rows<S: GraphSnapshot>(
         for &node_id in &nodes_to_delete {
             for edge in snapshot.neighbors(node_id, None) {
                 if detached_edges.insert(edge) {
-                    txn.tombstone_edge(edge.src, edge.rel, edge.dst)?;
+                    delete_relationship(snapshot, txn, edge)?;
                     deleted_count += 1;
                 }
             }
             for edge in snapshot.incoming_neighbors(node_id, None) {
                 if detached_edges.insert(edge) {
-                    txn.tombstone_edge(edge.src, edge.rel, edge.dst)?;
+                    delete_relationship(snapshot, txn, edge)?;
                     deleted_count += 1;
                 }
             }
             for edge in txn.pending_relationships_of(node_id) {
                 if detached_edges.insert(edge) {
-                    txn.tombstone_edge(edge.src, edge.rel, edge.dst)?;
+                    delete_relationship(snapshot, txn, edge)?;
                     deleted_count += 1;
                 }
             }
@@ -444,7 +460,7 @@ pub(super) fn execute_delete_on_rows<S: GraphSnapshot>(
     }
 
     for edge in edges_to_delete {
-        txn.tombstone_edge(edge.src, edge.rel, edge.dst)?;
+        delete_relationship(snapshot, txn, edge)?;
         deleted_count += 1;
     }
 
@@ -571,19 +587,19 @@ pub(super) fn execute_delete<S: GraphSnapshot>(
             // Get all edges connected to this node and delete them
             for edge in snapshot.neighbors(node_id, None) {
                 if detached_edges.insert(edge) {
-                    txn.tombstone_edge(edge.src, edge.rel, edge.dst)?;
+                    delete_relationship(snapshot, txn, edge)?;
                     deleted_count += 1;
                 }
             }
             for edge in snapshot.incoming_neighbors(node_id, None) {
                 if detached_edges.insert(edge) {
-                    txn.tombstone_edge(edge.src, edge.rel, edge.dst)?;
+                    delete_relationship(snapshot, txn, edge)?;
                     deleted_count += 1;
                 }
             }
             for edge in txn.pending_relationships_of(node_id) {
                 if detached_edges.insert(edge) {
-                    txn.tombstone_edge(edge.src, edge.rel, edge.dst)?;
+                    delete_relationship(snapshot, txn, edge)?;
                     deleted_count += 1;
                 }
             }
@@ -592,7 +608,7 @@ pub(super) fn execute_delete<S: GraphSnapshot>(
 
     // Delete explicitly targeted edges.
     for edge in edges_to_delete {
-        txn.tombstone_edge(edge.src, edge.rel, edge.dst)?;
+        delete_relationship(snapshot, txn, edge)?;
         deleted_count += 1;
     }
 
